@@ -67,12 +67,17 @@ class Check(c01.Check):
         sigs.append([[f'n{k}', None, k % 5] for k in range(rng.choice([40, 120, 255]))])
         # in half of the definitions the output bus is one of the scalar parameters: the reader must
         # name that parameter as the starting channel of the output
-        bus = {}
+        bus, inbus = {}, {}
         for i, sig in enumerate(sigs):
             scal = [name for name, rate, d in sig if not isinstance(d, list) and rate in (None, 'kr', 'ir')]
             if scal and rng.random() < 0.5:
                 bus[str(i)] = rng.choice(scal)
-        res, err = common.run_impl('c01', 'desc_probe', {'sigs': sigs, 'bus': bus}, timeout=900)
+            elif rng.random() < 0.7:
+                bus[str(i)] = str(rng.choice([0, 0, 1, 2, 7, 64]))          # a literal bus number (0 included)
+            if rng.random() < 0.4:
+                src = rng.choice(scal) if scal and rng.random() < 0.5 else str(rng.choice([0, 0, 2, 5, 16]))
+                inbus[str(i)] = [src, rng.choice([1, 1, 2, 4]), rng.choice(['kr', 'ar'])]
+        res, err = common.run_impl('c01', 'desc_probe', {'sigs': sigs, 'bus': bus, 'inbus': inbus}, timeout=900)
         if res is None:
             self.notes.append('desc probe failed: ' + err[-300:])
             return []
@@ -148,9 +153,18 @@ class Check(c01.Check):
                     if got != [i0, rn, wv]:
                         problem = f'reader recovers {name} as {got}, expected {[i0, rn, wv]}'
                         break
-            if not problem and str(si) in bus and r.get('out_start') != [bus[str(si)]]:
-                problem = (f'output unit writes to the bus given by parameter {bus[str(si)]!r}; the reader recovers '
-                           f'starting channel {r.get("out_start")}')
+            if not problem and r.get('out_start') != [bus.get(str(si), '0')]:
+                problem = (f'output unit writes to bus {bus.get(str(si), "0")!r} (a parameter name or a literal number); the reader '
+                           f'recovers starting channel {r.get("out_start")}')
+            ib = inbus.get(str(si))
+            if not problem and ib:
+                rn = {'kr': 'control', 'ar': 'audio'}[ib[2]]
+                if r.get('ins') != [[rn, ib[1], ib[0], 'In']]:
+                    problem = f'input unit In.{ib[2]}({ib[0]}, {ib[1]}): the reader recovers {r.get("ins")}'
+                elif r.get('outs') != [[rn, ib[1], 'Out']]:
+                    problem = f'output unit Out.{ib[2]} with {ib[1]} channel(s): the reader recovers {r.get("outs")}'
+            elif not problem and not ib and r.get('ins'):
+                problem = f'no input unit in the definition; the reader recovers {r.get("ins")}'
             if problem:
                 out.append({'what': f'parameters {sig}: {problem}', 'signature': 'c02:desc-layout', 'case': {'sig': sig}})
         return out
